@@ -369,7 +369,21 @@ class Zeroconf(QuietLogger):
         """Registers service information to the network with a default TTL.
         Zeroconf will then respond to requests for information for that
         service."""
+        # Answers that were queued while the previous description was current
+        # must not be sent after the announcement of the new one
+        previous = self.registry.async_get_info_name(info.name)
+        superseded: Set[DNSRecord] = set()
+        if previous is not None:
+            superseded.update((previous.dns_service(), previous.dns_text()))
+            server_key = previous.server_key
+            if server_key is not None and len(self.registry.async_get_infos_server(server_key)) <= 1:
+                superseded.update(previous.get_address_and_nsec_records())
         self.registry.async_update(info)
+        superseded.difference_update((info.dns_service(), info.dns_text()))
+        superseded.difference_update(info.get_address_and_nsec_records())
+        if superseded:
+            self.out_queue.async_remove_records(superseded)
+            self.out_delay_queue.async_remove_records(superseded)
         return asyncio.ensure_future(self._async_broadcast_service(info, _REGISTER_TIME, None))
 
     async def async_get_service_info(
